@@ -16,7 +16,10 @@
 package c12x
 
 import (
+	"encoding/json"
 	"errors"
+	"fmt"
+	"os"
 	"sort"
 	"strconv"
 	"strings"
@@ -53,23 +56,27 @@ type Case struct {
 	Two    bool `json:"two"`
 	Limit2 int  `json:"limit2"`
 	// free: one script per goroutine (last element of an op = pause afterwards, in us), ticks
+	// ticker: the ticker object under test is a real timex.NewTicker (period in us) instead of a FakeTicker
+	RealUs      int64     `json:"real_us"`
 	Threads     [][][]any `json:"threads"`
 	Ticks       int       `json:"ticks"`
 	TickPauseUs int64     `json:"tick_pause_us"`
+	Stamps      [][]any   `json:"stamps"` // free: ["tick", mode, off] per tick, cycled
 }
 
 // one entry per operation of the case
 type Step struct {
-	F     [][2]int64 `json:"f"`               // callbacks (key, value), sorted
-	R     int        `json:"r"`               // 0 nil, 1 ErrArgument, 2 ErrClosed / tick not taken, 3 panic
-	T     [][]any    `json:"t,omitempty"`     // cache/cleaner: wheel requests [kind, key, value, delay]
-	Keys  []int64    `json:"keys,omitempty"`  // cache: keys of c.data afterwards
-	Ret   []any      `json:"ret,omitempty"`   // cache: Get -> [v|null]; Take -> [v|null, loaderCalled]
-	C     [][2]int64 `json:"c,omitempty"`     // cleaner: task invocations (task id, how many-th call)
-	X     [][2]int64 `json:"x,omitempty"`     // two wheels / caches: callbacks of the OTHER one during this operation
-	XT    [][]any    `json:"xt,omitempty"`    // two caches: requests received by the OTHER cache's wheel
-	XKeys []int64    `json:"xkeys,omitempty"` // two caches: keys of the OTHER cache afterwards
-	E     [][]any    `json:"e,omitempty"`     // wheel: the calls made by callbacks during this operation, in order
+	F     [][2]int64   `json:"f"`               // callbacks (key, value), sorted
+	R     int          `json:"r"`               // 0 nil, 1 ErrArgument, 2 ErrClosed / tick not taken, 3 panic
+	T     [][]any      `json:"t,omitempty"`     // cache/cleaner: wheel requests [kind, key, value, delay]
+	Keys  []int64      `json:"keys,omitempty"`  // cache: keys of c.data afterwards
+	Ret   []any        `json:"ret,omitempty"`   // cache: Get -> [v|null]; Take -> [v|null, loaderCalled]
+	C     [][2]int64   `json:"c,omitempty"`     // cleaner: task invocations (task id, how many-th call)
+	X     [][2]int64   `json:"x,omitempty"`     // two wheels / caches: callbacks of the OTHER one during this operation
+	XT    [][]any      `json:"xt,omitempty"`    // two caches: requests received by the OTHER cache's wheel
+	XKeys []int64      `json:"xkeys,omitempty"` // two caches: keys of the OTHER cache afterwards
+	E     [][]any      `json:"e,omitempty"`     // wheel: the calls made by callbacks during this operation, in order
+	D     []TickerDone `json:"d,omitempty"`     // ticker: the operations that completed during this step, and how
 }
 
 type Out struct {
@@ -80,12 +87,57 @@ type Out struct {
 	Accepted bool     `json:"accepted"`           // new
 	Free     *FreeOut `json:"free,omitempty"`     // free
 	Err      string   `json:"err,omitempty"`
+	// the history could not be completed: a call into the wheel did not return (its loop is blocked) or
+	// the callbacks never came to rest; Obs holds the operations completed before.  The process exits
+	// after reporting it (its goroutines are in an unknown state).
+	Stuck string `json:"stuck,omitempty"`
 }
 
 type rticker struct{ c chan time.Time }
 
 func (t *rticker) Chan() <-chan time.Time { return t.c }
 func (t *rticker) Stop()                  {}
+
+// The VALUE carried by a tick is chosen by the case: ["tick"] = time.Now(), ["tick", mode, off]:
+//
+//	"z" the zero time.Time          "b" t0 + off ns (monotonic reading kept; off may be negative)
+//	"w" t0 + off, wall clock only   "u" time.Unix(0, off) (the epoch, the far future)
+//	"n" time.Now()
+//
+// t0 is taken just before the wheel is built.  The wheel must not look at it.
+type stamper struct{ t0 time.Time }
+
+func newStamper() *stamper { return &stamper{t0: time.Now()} }
+
+func (b *stamper) stamp(op []any) time.Time {
+	if len(op) < 3 {
+		return time.Now()
+	}
+	off := time.Duration(num(op[2]))
+	switch op[1].(string) {
+	case "z":
+		return time.Time{}
+	case "b":
+		return b.t0.Add(off)
+	case "w":
+		return b.t0.Round(0).Add(off)
+	case "u":
+		return time.Unix(0, int64(off))
+	}
+	return time.Now()
+}
+
+// a real timex.NewTicker whose ticks the executor lets through one at a time: the stamps are
+// those of the runtime's ticker (stale when the executor was slow: time.Ticker keeps one tick
+// buffered and drops the rest)
+type gatedReal struct {
+	inner timex.Ticker
+	c     chan time.Time
+}
+
+func (g *gatedReal) Chan() <-chan time.Time { return g.c }
+func (g *gatedReal) Stop()                  { g.inner.Stop() }
+func (g *gatedReal) forward()               { g.c <- <-g.inner.Chan() }
 
 const sentinel = int64(-424242)
 
@@ -123,6 +175,40 @@ func busy(stack string) bool {
 		return false
 	}
 	return true
+}
+
+// the run loop of some wheel is parked in a blocking operation inside one of its handlers
+// (not in the select of run itself): requests can no longer be received
+func loopStuck() bool {
+	for _, g := range hx.Stacks() {
+		if !strings.Contains(g, "collection.(*TimingWheel).run(") || !hx.Blocked(g) {
+			continue
+		}
+		lines := strings.SplitN(g, "\n", 3)
+		if len(lines) >= 2 && !strings.Contains(lines[1], "collection.(*TimingWheel).run(") {
+			return true
+		}
+	}
+	return false
+}
+
+// guarded runs one operation of a case; if it does not return (the wheel's loop no longer
+// takes requests) it says so instead of hanging the run
+func guarded(op []any, f func()) string {
+	done := make(chan struct{})
+	go func() { f(); close(done) }()
+	began := time.Now()
+	for {
+		select {
+		case <-done:
+			return ""
+		case <-time.After(500 * time.Millisecond):
+			// the call waits for the loop: is the loop itself parked somewhere other than its select?
+			if el := time.Since(began); el > 60*time.Second || (el > 3*time.Second && loopStuck()) {
+				return fmt.Sprintf("%v did not return within %v: the wheel's loop is blocked", op, el.Round(time.Second))
+			}
+		}
+	}
 }
 
 func num(v any) int64 { return int64(v.(float64)) }
@@ -219,6 +305,8 @@ type wheelInst struct {
 	tw      *collection.TimingWheel
 	rv      *rticker
 	fk      timex.FakeTicker
+	gr      *gatedReal
+	st      *stamper
 	fs      fires
 	gt      *gates
 	stopped bool
@@ -269,12 +357,19 @@ func val(v any) any {
 }
 
 func newWheelInst(n int, interval int64, ticker string, hold []int64, skeys bool, react map[string][]any) (*wheelInst, error) {
-	w := &wheelInst{gt: newGates(hold), skeys: skeys, react: react}
+	w := &wheelInst{gt: newGates(hold), skeys: skeys, react: react, st: newStamper()}
 	var tk timex.Ticker
-	if ticker == "fake" {
+	switch ticker {
+	case "fake":
 		w.fk = timex.NewFakeTicker()
 		tk = w.fk
-	} else {
+	case "buf": // like the FakeTicker (one tick buffered), with stamps of the case's choosing
+		w.rv = &rticker{c: make(chan time.Time, 1)}
+		tk = w.rv
+	case "real": // ticks of a real timex.NewTicker (period 200us, unrelated to the wheel's interval), gated
+		w.gr = &gatedReal{inner: timex.NewTicker(200 * time.Microsecond), c: make(chan time.Time)}
+		tk = w.gr
+	default:
 		w.rv = &rticker{c: make(chan time.Time)}
 		tk = w.rv
 	}
@@ -353,9 +448,9 @@ func (w *wheelInst) do(op []any) int {
 		if w.stopped {
 			// the loop has returned: nobody receives from the ticker any more
 			// (a FakeTicker is closed by Stop, sending would panic)
-			if w.rv != nil {
+			if w.rv != nil && cap(w.rv.c) == 0 {
 				select {
-				case w.rv.c <- time.Now():
+				case w.rv.c <- w.st.stamp(op):
 					r = 0
 				case <-time.After(3 * time.Millisecond):
 					r = 2
@@ -364,7 +459,9 @@ func (w *wheelInst) do(op []any) int {
 				r = 2
 			}
 		} else if w.rv != nil {
-			w.rv.c <- time.Now()
+			w.rv.c <- w.st.stamp(op)
+		} else if w.gr != nil {
+			w.gr.forward()
 		} else {
 			w.fk.Tick()
 		}
@@ -416,16 +513,12 @@ func runWheel(c Case) Out {
 			op = op[2:]
 		}
 		// a call into the wheel that never returns (its loop is stuck behind a callback) must not hang the run
-		done := make(chan int, 1)
-		go func(w *wheelInst, op []any) { done <- w.do(op) }(ws[target], op)
 		var r int
-		select {
-		case r = <-done:
-		case <-time.After(60 * time.Second):
-			hx.Fatal("case %d: %v did not return within 60 s: the wheel's loop is blocked", c.ID, op)
+		if out.Stuck = guarded(op, func() { r = ws[target].do(op) }); out.Stuck != "" {
+			return out
 		}
 		if !hx.Quiesce(busy, 30*time.Second) {
-			out.Err = "callbacks did not quiesce"
+			out.Stuck = "callbacks did not quiesce"
 			return out
 		}
 		st := Step{F: ws[target].fs.take(), R: r, E: ws[target].takeReacted()}
@@ -528,10 +621,11 @@ type cacheInst struct {
 	tap   *collection.VerifC12Tap
 	rec   *recorder
 	tk    *rticker
+	st    *stamper
 }
 
 func newCacheInst(expireMs int64, limit int) (*cacheInst, error) {
-	ci := &cacheInst{rec: &recorder{keyOf: cacheKey, valOf: intVal}, tk: &rticker{c: make(chan time.Time)}}
+	ci := &cacheInst{rec: &recorder{keyOf: cacheKey, valOf: intVal}, tk: &rticker{c: make(chan time.Time)}, st: newStamper()}
 	var opts []collection.CacheOption
 	if limit != 0 {
 		opts = append(opts, collection.WithLimit(limit))
@@ -577,7 +671,7 @@ func (ci *cacheInst) do(op []any, st *Step) {
 			st.Ret = []any{v, called}
 		}
 	case "tick":
-		ci.tk.c <- time.Now()
+		ci.tk.c <- ci.st.stamp(op)
 	case "drain":
 		st.R = errClass(ci.tap.Drain(func(k, v any) { ci.rec.Fire(k, v) }))
 	}
@@ -627,7 +721,7 @@ func runCache(c Case) Out {
 		st := Step{}
 		cs[target].do(op, &st)
 		if !hx.Quiesce(busy, 30*time.Second) {
-			out.Err = "wheel callbacks did not quiesce"
+			out.Stuck = "wheel callbacks did not quiesce"
 			return out
 		}
 		st.T = cs[target].rec.takeOps()
@@ -663,6 +757,7 @@ func runCleaner(c Case) Out {
 	// the value is a delayTask (private): the overlay reports its delay field instead
 	rec.valOf = intVal
 	tk := &rticker{c: make(chan time.Time)}
+	stp := newStamper()
 	n, interval, stop, err := rcache.VerifC12CleanerWheel(tk, rec)
 	if err != nil {
 		out.Err = err.Error()
@@ -675,32 +770,36 @@ func runCleaner(c Case) Out {
 	calls := [][2]int64{}
 	for _, op := range c.Ops {
 		st := Step{}
-		switch op[0].(string) {
-		case "add":
-			// a task that fails op[2] times, then succeeds; op[1] identifies it
-			// op[3]: which cache key the task is about (tasks of different stores may name the same key)
-			id, fails := num(op[1]), num(op[2])
-			kid := id
-			if len(op) > 3 {
-				kid = num(op[3])
-			}
-			cnt := int64(0)
-			rcache.AddCleanTask(func() error {
-				cmu.Lock()
-				cnt++
-				n := cnt
-				calls = append(calls, [2]int64{id, n})
-				cmu.Unlock()
-				if n <= fails {
-					return errFetch
+		if out.Stuck = guarded(op, func() {
+			switch op[0].(string) {
+			case "add":
+				// a task that fails op[2] times, then succeeds; op[1] identifies it
+				// op[3]: which cache key the task is about (tasks of different stores may name the same key)
+				id, fails := num(op[1]), num(op[2])
+				kid := id
+				if len(op) > 3 {
+					kid = num(op[3])
 				}
-				return nil
-			}, "key"+strconv.FormatInt(kid, 10))
-		case "tick":
-			tk.c <- time.Now()
+				cnt := int64(0)
+				rcache.AddCleanTask(func() error {
+					cmu.Lock()
+					cnt++
+					n := cnt
+					calls = append(calls, [2]int64{id, n})
+					cmu.Unlock()
+					if n <= fails {
+						return errFetch
+					}
+					return nil
+				}, "key"+strconv.FormatInt(kid, 10))
+			case "tick":
+				tk.c <- stp.stamp(op)
+			}
+		}); out.Stuck != "" {
+			return out
 		}
 		if !hx.Quiesce(busy, 30*time.Second) {
-			out.Err = "cleaner did not quiesce"
+			out.Stuck = "cleaner did not quiesce"
 			return out
 		}
 		st.T = rec.takeOps()
@@ -720,25 +819,50 @@ func runCleaner(c Case) Out {
 	return out
 }
 
-// Main reads the cases from $VERIF_IN and writes one observation per case to $VERIF_OUT.
+// Main reads the cases from $VERIF_IN and writes one observation per case to $VERIF_OUT
+// (unbuffered: what has been written survives a crash of the process).
 func Main() {
 	logx.Disable()
 	var cases []Case
 	hx.ReadCases(&cases)
-	w := hx.NewWriter()
-	defer w.Close()
+	f, err := os.Create(os.Getenv("VERIF_OUT"))
+	if err != nil {
+		hx.Fatal("create VERIF_OUT: %v", err)
+	}
+	defer f.Close()
 	for _, c := range cases {
-		switch c.Kind {
-		case "new":
-			w.Put(runNew(c))
-		case "cache":
-			w.Put(runCache(c))
-		case "cleaner":
-			w.Put(runCleaner(c))
-		case "free":
-			w.Put(runFree(c))
-		default:
-			w.Put(runWheel(c))
+		var o Out
+		fin := make(chan Out, 1)
+		go func(c Case) {
+			switch c.Kind {
+			case "new":
+				fin <- runNew(c)
+			case "cache":
+				fin <- runCache(c)
+			case "cleaner":
+				fin <- runCleaner(c)
+			case "free":
+				fin <- runFree(c)
+			case "ticker":
+				fin <- runTickerCase(c)
+			default:
+				fin <- runWheel(c)
+			}
+		}(c)
+		select {
+		case o = <-fin:
+		case <-time.After(300 * time.Second):
+			o = Out{ID: c.ID, Stuck: "the case did not finish within 300 s"}
+		}
+		b, err := json.Marshal(o)
+		if err != nil {
+			hx.Fatal("marshal: %v", err)
+		}
+		f.Write(append(b, '\n'))
+		if o.Stuck != "" {
+			f.Close()
+			fmt.Fprintf(os.Stderr, "executor: case %d: %s\n", c.ID, o.Stuck)
+			os.Exit(5)
 		}
 	}
 }
